@@ -118,6 +118,14 @@ func genC08Plan(r *sim.Rng, tier string) ChunkPlan {
 				m.Ts = 2 * prev.Ts
 			}
 		}
+		if prev, ok := lastSpec[csid]; ok && r.Bool(0.08) {
+			// same length and message stream as the previous message of the chunk stream, another type: a format-1 header
+			// whose length field repeats the remembered one
+			m.Msid, m.Len = prev.Msid, prev.Len
+			for m.Type == prev.Type {
+				m.Type = []int{8, 9, 18, 20, 15, 17}[r.Intn(6)]
+			}
+		}
 		if ls, ok := lastSpec[csid]; ok {
 			prevTs2[csid] = ls.Ts
 		}
